@@ -28,3 +28,85 @@ package sql
 //@   requires ta.Name != nil
 //@   modifies *
 //@   callarg fmt.Sprintf@1 1 gen.SQLTableName(ta.TableName())
+
+// ---------------------------------------------------------------- C08 (kernel): nullability, CHECKs, constraints
+// Crash freedom of these functions belongs to C18: the contracts carry `nosafety` and state the emitted text only.
+
+// one entry per constant of the enum, in order: its exact value
+//@ func enumTuple
+//@   props C08
+//@   pure
+//@   nosafety
+//@   ensures len(chunks) == len(e.Members) && (forall i int :: 0 <= i && i < len(e.Members) ==> chunks[i] == e.Members[i].Const.Val().ExactString())
+//@   ensures result == strings.ReplaceAll(fmt.Sprintf("(%s)", strings.Join(chunks, ", ")), "\"", "'")
+//@   loop e.Members.1 index n
+//@   loop e.Members.1 invariant len(chunks) == len(e.Members) && (forall i int :: 0 <= i && i < n ==> chunks[i] == e.Members[i].Const.Val().ExactString())
+//@   loop e.Members.1 invariant fresh(chunks) && allocated(chunks)
+
+// NOT NULL unless the type is a nullable wrapper or a variable-length array; enum columns list the enum values,
+// fixed-size arrays check their length
+//@ func typeConstraint
+//@   props C08
+//@   pure
+//@   nosafety
+//@   ensures is(field.SQLType, sql.Builtin) ==> result == ite(as(field.SQLType, sql.Builtin).IsNullable(), "", "NOT NULL")
+//@   ensures is(field.SQLType, sql.Enum) ==> result == fmt.Sprintf(" CHECK (%s IN %s) NOT NULL", field.Field.Field.Name(), enumTuple(as(field.SQLType, sql.Enum).E))
+//@   ensures is(field.SQLType, sql.Array) && as(field.SQLType, sql.Array).A.Len >= 0 ==> result == fmt.Sprintf(" CHECK (array_length(%s, 1) = %d) NOT NULL", field.Field.Field.Name(), as(field.SQLType, sql.Array).A.Len)
+//@   ensures is(field.SQLType, sql.Array) && as(field.SQLType, sql.Array).A.Len < 0 ==> result == ""
+//@   ensures is(field.SQLType, sql.Composite) || is(field.SQLType, sql.JSON) ==> result == "NOT NULL"
+
+// `<name> serial PRIMARY KEY` for the id column, `<name> <sql type> <constraint>` otherwise
+//@ func createStmt
+//@   props C08
+//@   pure
+//@   nosafety
+//@   ensures result1 == fmt.Sprintf("%s %s", col.Field.Field.Name(), ite(isPrimary, "serial PRIMARY KEY", col.SQLType.Name() + " " + typeConstraint(col)))
+//@   ensures len(result2) == 0
+
+// FOREIGN KEY(<column>) REFERENCES <target table>, with the tagged ON DELETE action if any
+//@ func generateForeignConstraint
+//@   props C08
+//@   pure
+//@   nosafety
+//@   ensures result == fmt.Sprintf("ALTER TABLE %s ADD FOREIGN KEY(%s) REFERENCES %s %s;", gen.SQLTableName(sourceTable), fk.F.Field.Name(), gen.SQLTableName(fk.Target), ite(fk.OnDelete() != "", "ON DELETE " + fk.OnDelete(), ""))
+
+// the JSON validation functions of a type: only new declarations are built, nothing existing is written
+// (assumed: the recursion over the type in json.go is not under contract)
+//@ func jsonValidations
+//@   props C08
+//@   trusted pin=8b0fa1bed9c9fec8
+//@   pure result2
+
+//@ func compositeDecl
+//@   props C08
+//@   nosafety
+//@   requires is(cp.Type(), *an.Struct) ==> (forall i int :: 0 <= i && i < len(as(cp.Type(), *an.Struct).Fields) ==> as(cp.Type(), *an.Struct).Fields[i].Field != nil)
+//@   loop st.Fields.1 invariant fresh(fields) && allocated(fields)
+
+// one CREATE TABLE per table, named by the snake-case-plural convention, with one line per column in column
+// order; the id column is the serial primary key
+//@ func generateTable
+//@   props C08
+//@   nosafety
+//@   requires forall i int :: 0 <= i && i < len(ta.Columns) ==> ta.Columns[i].Field.Field != nil
+//@   -- type invariant of analysed structs: fields are non nil objects
+//@   requires forall s *an.Struct, i int :: is(s, *an.Struct) && 0 <= i && i < len(s.Fields) ==> s.Fields[i].Field != nil
+//@   ensures len(colTypes) == len(ta.Columns) && (forall i int :: 0 <= i && i < len(ta.Columns) ==> colTypes[i] == "\t" + createStmt(ta.Columns[i], ta.Primary() == i))
+//@   ensures tableName == gen.SQLTableName(ta.TableName())
+//@   callarg fmt.Sprintf@2 1 gen.SQLTableName(ta.TableName())
+//@   callarg fmt.Sprintf@2 2 strings.Join(colTypes, ",\n")
+//@   loop ta.Columns.1 index n
+//@   loop ta.Columns.1 invariant len(colTypes) == len(ta.Columns) && (forall i int :: 0 <= i && i < n ==> colTypes[i] == "\t" + createStmt(ta.Columns[i], ta.Primary() == i))
+//@   loop ta.Columns.1 invariant fresh(colTypes) && allocated(colTypes)
+//@   loop ta.Columns.1 invariant isnil(decls) || (fresh(decls) && allocated(decls))
+
+// guard fields: a default plus an equality CHECK, on the table of the struct and the guarded column
+//@ func generateQuardConstraint
+//@   props C08
+//@   nosafety
+//@   modifies *
+//@   ensures len(result) == 2
+//@   callarg fmt.Sprintf@1 1 gen.SQLTableName(ta.TableName())
+//@   callarg fmt.Sprintf@1 2 column.Field.Field.Name()
+//@   callarg fmt.Sprintf@2 1 gen.SQLTableName(ta.TableName())
+//@   callarg fmt.Sprintf@2 2 column.Field.Field.Name()
